@@ -133,7 +133,10 @@ def op_comment(c):
     cm2 = Comment(build(c['c']))
     alias = cm2
     cm2 += c['more']
-    return {'lines': before, 'r1': r1, 'lines_after': mid, 'r2': r2, 'lines_ext': list(cm.lines), 'r3': r3,
+    cm3 = Comment(build(c['c']))
+    plus = cm3 + c['more']
+    assert list(cm3.lines) == before, '`comment + x` changed the comment'
+    return {'lines': before, 'r1': r1, 'lines_after': mid, 'r2': r2, 'lines_ext': list(cm.lines), 'r3': r3, 'plus_lines': list(plus.lines),
             'iadd_same_object': cm2 is alias, 'iadd_type': type(cm2).__name__, 'r3_iadd': str(cm2), 'r3_alias': str(alias),
             'in_namespace': str(Namespace(NamespaceIds(['My', 'Reserved']), contents=Comment(build(c['c'])))),
             'in_list': str(TextBlock([Comment(build(c['c']))])), 'direct': TextBlock(Comment(build(c['c']))).lines}
